@@ -311,7 +311,8 @@ theorem type_roundtrip (t : TypeP) (h : wfType t = true) :
 
 /-- `deserialize_value_info_proto` on a well-formed type: what the value holds afterwards -/
 theorem applyInfo_ok (v : IRValue) (vi : ValueInfoP) (h : wfType vi.type = true) :
-    ∃ ty sh, serTypeAndShape ty sh = vi.type ∧ (sh.isNone && ty.isNone) = viIsUnset vi.type ∧
+    ∃ ty sh, serTypeAndShape ty sh = vi.type ∧
+      (ty.isNone = viIsUnset vi.type ∧ (ty = none → sh = none)) ∧
       applyInfo v vi = .ok { v with shape := sh, type := ty,
                                     mprops := dictUpdate v.mprops (dictOfEntries vi.metadata),
                                     doc := vi.doc } := by
@@ -321,7 +322,7 @@ theorem applyInfo_ok (v : IRValue) (vi : ValueInfoP) (h : wfType vi.type = true)
   | unset den =>
     rw [hvt] at h1 h2
     simp [desTypeForType] at h1; simp [desTypeForShape] at h2
-    subst h1 h2; rfl
+    subst h1 h2; exact ⟨rfl, fun _ => rfl⟩
   | map den => rw [hvt] at h; simp [wfType, wfTypeSet] at h
   | tensor e s den =>
     rw [hvt] at h1 h
@@ -364,7 +365,7 @@ theorem serValue_of_info (vi : ValueInfoP) (ty : Option IRType) (sh : Option IRS
   cases vi; simp
 
 theorem shouldCreateVI_of_info (vi : ValueInfoP) (ty : Option IRType) (sh : Option IRShape) (q : Dict)
-    (c : Option IRTensor) (hty : (sh.isNone && ty.isNone) = viIsUnset vi.type) :
+    (c : Option IRTensor) (hty : ty.isNone = viIsUnset vi.type) :
     shouldCreateVI (infoValue vi ty sh q c) = (viHasInfo vi && !vi.name.isEmpty) := by
   simp only [infoValue, shouldCreateVI, viHasInfo, dictUpdate_nil _ (nodup_dkeys_dictOfEntries _),
     dictOfEntries_isEmpty, ← hty]
@@ -579,5 +580,90 @@ theorem setName_self (p : TensorP) (t : IRTensor) (h : desTensor p = .ok t) :
   · split at h
     · cases h; rfl
     · cases h; rfl
+
+
+/-! ### attribute payloads, device configurations -/
+
+theorem typeAndShape_roundtrip (t : TypeP) (h : wfType t = true) :
+    ∃ ty sh, desTypeAndShape t = .ok (ty, sh) ∧ serTypeAndShape ty sh = t := by
+  obtain ⟨ty, sh, h1, h2, h3⟩ := type_roundtrip t h
+  exact ⟨ty, sh, by simp [desTypeAndShape, h1, h2, bind, Except.bind], h3⟩
+
+theorem shardedDim_roundtrip (d : ShardedDimP) : serShardedDim (desShardedDim d) = d := by
+  cases d with
+  | mk axis simple =>
+    simp only [serShardedDim, desShardedDim, List.map_map, ShardedDimP.mk.injEq, true_and]
+    have : (serSimpleShard ∘ desSimpleShard) = id := by
+      funext s; cases s; simp [serSimpleShard, desSimpleShard, serDimVal_desDimVal]
+    rw [this, List.map_id]
+
+theorem shardingSpecs_roundtrip (scopes : Scopes) (ss : List ShardingSpecP)
+    (h : ss.all wfShardingSpec = true) :
+    serShardingSpecs scopes (ss.map (desShardingSpec scopes)) = .ok ss := by
+  induction ss with
+  | nil => rfl
+  | cons s ss ih =>
+    simp only [List.all_cons, Bool.and_eq_true] at h
+    have hs : serShardingSpec scopes (desShardingSpec scopes s) = .ok s := by
+      have hne : s.tensorName.isEmpty = false := by simpa [wfShardingSpec] using h.1
+      have hdims : (s.dims.map desShardedDim).map serShardedDim = s.dims := by
+        simp [List.map_map, Function.comp_def, shardedDim_roundtrip]
+      cases s with
+      | mk tn dev gm dims =>
+        simp only at hne hdims
+        simp only [desShardingSpec, hne, Bool.false_eq_true, if_false]
+        cases hr : resolve scopes tn with
+        | some r => simp [serShardingSpec, resolve_refName hr, hne, hdims]
+        | none => simp [serShardingSpec, hne, hdims]
+    simp only [List.map_cons, serShardingSpecs, hs, ih h.2, bind, Except.bind]
+
+theorem nodeDevCfgs_roundtrip (scopes : Scopes) (cs : List NodeDevCfgP)
+    (h : cs.all wfNodeDevCfg = true) :
+    serNodeDevCfgs scopes (cs.map (desNodeDevCfg scopes)) = .ok cs := by
+  induction cs with
+  | nil => rfl
+  | cons c cs ih =>
+    simp only [List.all_cons, Bool.and_eq_true] at h
+    have hc : serNodeDevCfg scopes (desNodeDevCfg scopes c) = .ok c := by
+      simp only [wfNodeDevCfg, Bool.and_eq_true, Bool.not_eq_true'] at h
+      cases c with
+      | mk id specs stage =>
+        simp only at h
+        simp [desNodeDevCfg, serNodeDevCfg, h.1.1, shardingSpecs_roundtrip scopes specs h.1.2,
+          bind, Except.bind]
+    simp only [List.map_cons, serNodeDevCfgs, hc, ih h.2, bind, Except.bind]
+
+theorem desBStrs_utf8 (xs : List BStr) (h : xs.all bstrIsUtf8 = true) :
+    ∃ ys, desBStrs xs = .ok ys ∧ serBStrs ys = xs := by
+  induction xs with
+  | nil => exact ⟨[], rfl, rfl⟩
+  | cons x xs ih =>
+    simp only [List.all_cons, Bool.and_eq_true] at h
+    obtain ⟨ys, h1, h2⟩ := ih h.2
+    cases x with
+    | utf8 s => exact ⟨s :: ys, by simp [desBStrs, h1, bind, Except.bind], by simp [serBStrs] at h2 ⊢; exact h2⟩
+    | raw b => simp [bstrIsUtf8] at h
+
+theorem desTensors_roundtrip (ts : List TensorP) (h : ts.all wfTensor = true) :
+    ∃ xs, desTensors ts = .ok xs ∧ xs.map serTensor = ts.map normTensor := by
+  induction ts with
+  | nil => exact ⟨[], rfl, rfl⟩
+  | cons t ts ih =>
+    simp only [List.all_cons, Bool.and_eq_true] at h
+    obtain ⟨xs, h1, h2⟩ := ih h.2
+    obtain ⟨x, g1, g2, _⟩ := tensor_roundtrip t h.1
+    exact ⟨x :: xs, by simp [desTensors, g1, h1, bind, Except.bind], by simp [g2, h2]⟩
+
+theorem desTypeAndShapes_roundtrip (tps : List TypeP) (h : tps.all wfType = true) :
+    ∃ xs, desTypeAndShapes tps = .ok xs ∧ serTypeAndShapes xs = tps := by
+  induction tps with
+  | nil => exact ⟨[], rfl, rfl⟩
+  | cons t ts ih =>
+    simp only [List.all_cons, Bool.and_eq_true] at h
+    obtain ⟨xs, h1, h2⟩ := ih h.2
+    obtain ⟨ty, sh, g1, g2⟩ := typeAndShape_roundtrip t h.1
+    refine ⟨(ty, sh) :: xs, by simp [desTypeAndShapes, g1, h1, bind, Except.bind], ?_⟩
+    simp only [serTypeAndShapes, List.map_cons, g2] at h2 ⊢
+    rw [h2]
 
 end IrVerif.Serde
